@@ -145,6 +145,7 @@ C18StepChecks(k, e, s, t, g) ==
 PoolBal(s, p, d) == IF p \in DOMAIN s.acc /\ d \in DOMAIN s.acc[p].total THEN s.acc[p].total[d] ELSE Reserve(s, p, d)
 HasPrices(s, p)  == \A d \in PoolAssets(s, p) : d \in DOMAIN s.oracle.lookupDenom /\ s.oracle.lookupDenom[d] \succ Zero
 PoolTVL(s, p)    == SumOver(PoolAssets(s, p), LAMBDA d : PoolBal(s, p, d) ** s.oracle.lookupDenom[d])
+OracleSingle(e, s, p) == s.amm.pools[p].useOracle /\ HasPrices(s, p) /\ Arg(e, "mode", "") = "single"
 
 \* amm.MsgJoinPool: shares minted = response; committed to the sender; tokens taken = response
 JoinChecks(k, e, s, t, g) ==
@@ -165,11 +166,17 @@ JoinChecks(k, e, s, t, g) ==
               /\ (DBal(s, t, s.amm.pools[p].treasury, d) # Zero => s.amm.pools[p].useOracle), ""),
        Chk("C05", "C05.step.join_within_max_in", TRUE,
            \A d \in DOMAIN e.resp.tokenIn : e.resp.tokenIn[d] \preceq Get(e.args.maxIn, d, Zero), ""),
-       \* oracle pools: the minted shares are worth no more than the deposit at the oracle prices in force, measured against
-       \* the pool as it is when the join executes (accounted balances where the pool has an accounted pool), one base unit
-       \* per asset allowed:   minted * TVL <= (value deposited) * shares
-       Chk("C05", "C05.step.oracle_join_mints_no_more_than_value_deposited", s.amm.pools[p].useOracle /\ HasPrices(s, p),
-           (s.amm.pools[p].useOracle /\ HasPrices(s, p)) =>
+       \* all-asset join (no swap): shares are minted pro rata to the pool's own reserves, one base unit per asset allowed:
+       \*   minted * reserve_d <= (in_d + 1) * shares   for every asset
+       Chk("C05", "C05.step.all_asset_join_mints_no_more_than_pro_rata", Arg(e, "mode", "") = "all",
+           Arg(e, "mode", "") = "all" =>
+              \A d \in PoolAssets(s, p) : e.resp.shareOut ** Reserve(s, p, d) \preceq (Get(e.resp.tokenIn, d, Zero) ++ One) ** s.amm.pools[p].shares,
+           Str(e.resp.shareOut)),
+       \* single-sided join of an oracle pool: the minted shares are worth no more than the deposit at the oracle prices in force,
+       \* measured against the pool as it is when the join executes (accounted balances where the pool has an accounted pool),
+       \* one base unit allowed:   minted * TVL <= (value deposited) * shares
+       Chk("C05", "C05.step.oracle_join_mints_no_more_than_value_deposited", OracleSingle(e, s, p),
+           OracleSingle(e, s, p) =>
               e.resp.shareOut ** PoolTVL(s, p) \preceq
                  SumOver(PoolAssets(s, p), LAMBDA d : (Get(e.resp.tokenIn, d, Zero) ++ One) ** s.oracle.lookupDenom[d]) ** s.amm.pools[p].shares,
            Str(e.resp.shareOut)) }
